@@ -16,7 +16,7 @@ from . import rprog
 from . import rworlds as W
 
 ID = 'C10'
-QUICK_RUNS = 600
+QUICK_RUNS = 1200
 THOROUGH_SECONDS = 480
 MARGIN = 1.0 / 128
 TICK = 2.0 ** -32
@@ -30,7 +30,47 @@ COMPONENTS = {
 TEMPOS = [0.5, 1, 1, 2, 2, 4]
 
 
+def scenario_move(tp):
+    """Directed template: a routine waiting in one clock is paused and
+    resumed onto another clock before its pending wake-up (it then sits in
+    both queues), at instants kept apart from every beat."""
+    tempo1 = tp.choice([1, 2, 4])
+    tempo2 = tp.choice([1, 2])
+    # the routine lives on a TempoClock (wake-ups on the beat grid) and is
+    # moved onto SystemClock at an instant off that grid, so that the wake-ups
+    # it now gets from two clocks never coincide
+    c1 = tp.choice(['t0', 't1'])
+    c2 = 'sys'
+    names = ['sys']
+    n = 3 + tp.draw(4)
+    body = [['rec']]
+    for i in range(n):
+        body += [['wait', tp.choice([0.5, 1, 1, 2])], ['rec']]
+        if tp.draw(3) == 0:
+            body.append(['msg', 100 + i])
+    off = tp.choice([1 / 16, 3 / 16, 5 / 16, 3 / 32]) + tp.draw(3) * 0.5
+    ctl = [['spawnd' if c1 == 'sys' else 'spawn', 1] +
+           ([0] if c1 == 'sys' else []),
+           ['wait', off], ['pause', 1], ['resume', 1, c2]]
+    if tp.draw(2):
+        ctl += [['wait', 1 / 16 + tp.draw(3) * 0.25], ['pause', 1],
+                ['wait', 1 / 32], ['resume', 1, tp.choice(names)]]
+    return {'t0': rprog.T0, 'clocks': [{'tempo': tempo1, 'beats': 0},
+                                       {'tempo': tempo2, 'beats': 0}],
+            'routines': [
+                {'clock': 'sys', 'quant': None, 'seed': tp.draw(1000),
+                 'body': ctl},
+                {'clock': c1, 'quant': 0, 'seed': None, 'body': body}]}
+
+
 def gen_case(tp, tier):
+    if tp.draw(8) == 0:
+        kn = {'policy': tp.choice(C.POLICIES), 'lat': tp.choice([0, 4, 4]),
+              'cost': tp.choice([0.0, 5e-6]), 'stall_pm': 0,
+              'epoch': tp.choice(['exact', 'real']),
+              'time_yield': bool(tp.draw(2)), 'max_steps': 30000}
+        return {'prog': scenario_move(tp), 'knobs': kn, 'perturb': 1,
+                'family': 0, 'scenario': 'move'}
     feat = {'tempo_clocks': True, 'sends': tp.draw(2) == 0,
             'tempo_change': tp.draw(3) == 0,
             'sync': tp.draw(2) == 0, 'control': tp.draw(3) == 0,
@@ -96,8 +136,7 @@ def footprint(e, prog, fam):
         fp.append(('routine', e['vals'][0], 'W'))
     elif ev == 'resume':
         t = e['vals'][0]
-        fp += [('routine', t, 'W'),
-               ('queue', prog['routines'][t]['clock'], 'W')]
+        fp += [('routine', t, 'W'), ('queue', '*', 'W')]
     elif ev in ('cwait', 'cwoke', 'cset'):
         fp.append(('cond', e['vals'][0], 'W'))
     elif ev in ('csignal', 'cunhang'):
@@ -141,7 +180,7 @@ def families(prog):
     return fam
 
 
-def well_synchronised(prog, trace):
+def well_synchronised(prog, trace, slack=1e-9):
     fam = families(prog)
     # a task made overdue by a map change (its logical time lies before the
     # instant of the change) runs 'immediately': in real time it races with
@@ -150,21 +189,48 @@ def well_synchronised(prog, trace):
     for e in trace:
         if 'secs' not in e or e['r'] == 'main':
             continue
-        if hi is not None and e['secs'] < hi - 1e-9:
+        if hi is not None and e['secs'] < hi - slack:
             return False, ('overdue-task', e['r'])
         hi = e['secs'] if hi is None else max(hi, e['secs'])
+    # a routine resumed onto an explicitly given clock may sit in two clocks'
+    # queues at once: its wake-ups can come from either thread
+    moved = {st[1] for r in prog['routines'] for st in r['body']
+             if st[0] == 'resume' and len(st) > 2}
     evs = []
-    for e in trace:
+    res_idx = {}
+    for n, e in enumerate(trace):
         if 'secs' not in e or e['r'] == 'main':
             continue
         cname = prog['routines'][e['r']]['clock']
-        evs.append((e['secs'], cname, footprint(e, prog, fam), e))
+        fp = footprint(e, prog, fam)
+        if e['r'] in moved:
+            # events of one resumption share a name; two resumptions of the
+            # routine inside one margin window (woken by two clocks) conflict
+            k = res_idx.get(e['r'], 0)
+            cname = f'moved-{e["r"]}-{k}'
+            fp = fp + [('routine', e['r'], 'W')]
+            if e['ev'] in ('wait', 'cwait', 'fget'):
+                res_idx[e['r']] = k + 1
+        evs.append((e['secs'], cname, fp, e, n))
+    # operations that schedule a routine: (trace index, actor, target)
+    causes = []
+    for n, e in enumerate(trace):
+        if e['ev'] in ('spawn', 'spawnd'):
+            causes.append((n, e['r'], e['child']))
+        elif e['ev'] == 'resume':
+            causes.append((n, e['r'], e['vals'][0]))
     evs.sort(key=lambda x: x[0])
-    for i, (s1, c1, f1, e1) in enumerate(evs):
-        for s2, c2, f2, e2 in evs[i + 1:]:
+    for i, (s1, c1, f1, e1, n1) in enumerate(evs):
+        for s2, c2, f2, e2, n2 in evs[i + 1:]:
             if s2 - s1 >= MARGIN:
                 break
             if c1 == c2:
+                continue
+            # what an actor does before it schedules a routine happens before
+            # that routine's wake-up: cause and effect do not race
+            a, b, na, nb = (e1, e2, n1, n2) if n1 < n2 else (e2, e1, n2, n1)
+            if any(na <= k < nb and actor == a['r'] and tgt == b['r']
+                   for k, actor, tgt in causes):
                 continue
             hit = conflicts(f1, f2)
             if hit:
@@ -351,6 +417,19 @@ def run_case(case, tape, ctx):
                              f'routine {victim} drew more')
     # 1. RT vs NRT
     ok, why = well_synchronised(prog, nrt['trace'])
+    if ok and not case.get('scenario') and any(
+            st[0] == 'resume' and len(st) > 2
+            for r in prog['routines'] for st in r['body']):
+        # a routine sitting in two clocks' queues may be woken by both at
+        # the same instant without leaving a trace of the second wake-up:
+        # judged only in the directed scenario, which keeps them apart
+        ok, why = False, ('moved-routine',)
+    if ok:
+        # a routine that one world never got to run leaves no event there:
+        # the real-time timeline must be free of conflicts as well
+        # (physical order: unrelated events of different clocks inside one
+        # margin window may appear in either order)
+        ok, why = well_synchronised(prog, rt['trace'], slack=MARGIN)
     if ok:
         stats['well-synchronised'] = 1
         if rt['errors'] or nrt['errors']:
